@@ -16,6 +16,7 @@ pub mod c11;
 pub mod c12;
 pub mod c13;
 pub mod c14;
+pub mod c15;
 pub mod c19;
 
 pub fn dispatch(ctx: &mut Ctx) -> bool {
@@ -34,6 +35,7 @@ pub fn dispatch(ctx: &mut Ctx) -> bool {
 		"C12" => c12::run(ctx),
 		"C13" => c13::run(ctx),
 		"C14" => c14::run(ctx),
+		"C15" => c15::run(ctx),
 		"C19" => c19::run(ctx),
 		_ => return false,
 	}
@@ -59,6 +61,7 @@ pub fn confirm(key: &str) -> Option<Option<String>> {
 		"C12" => c12::confirm(key),
 		"C13" => c13::confirm(key),
 		"C14" => c14::confirm(key),
+		"C15" => c15::confirm(key),
 		"C19" => c19::confirm(key),
 		_ => None,
 	}
